@@ -19,6 +19,8 @@ COUNTS = [0, 1, 1, 2, 3, 5, 6, 7, 10, 11, 12, 13, 23, 24, 25, 29, 30, 31, 59, 60
 
 
 def part_seconds(n, unit):
+    if n < 0:
+        return -part_seconds(-n, unit)          # '-14 months' is minus (one year and two months)
     if unit == 'month':
         return ((n // 12) * 365 + (n % 12) * 30) * 86400
     return n * LEN[unit]
@@ -54,6 +56,8 @@ def gen_run(rng, words, maxparts=7):
         u = rng.choice(units)
         c = rng.choice(COUNTS) if rng.random() < 0.8 else rng.randint(0, 10**rng.randint(1, 6))
         w = rng.choice(words[u])
+        if rng.random() < 0.08 and c > 0:
+            c = -c                               # a minus written directly in front of the count: the part is subtracted
         parts.append('%d %s' % (c, w))
         total += part_seconds(c, u)
     return ' '.join(parts), total
@@ -163,6 +167,10 @@ def run_shard(ctx):
                 elif form == 1:
                     text = 'zq = %s\nzq %s' % (t1, t2)                      # a duration held by a name, written next to another one
                     want = s1 + s2
+                elif form == 2 and rng.random() < 0.5:
+                    t3, s3 = gen_run(rng, words, 2)
+                    text = 'zq = %s\nwv = %s\nmk = %s\nzq wv mk' % (t1, t2, t3)          # three (and, below, two) names side by side
+                    want = s1 + s2 + s3
                 elif form == 2:
                     text = 'zq = %s\nwv = %s\nzq wv' % (t1, t2)
                     want = s1 + s2
